@@ -507,5 +507,8 @@ class SeqEnv:
             self.faults -= 1
             exc = FAULTS[fk][ans[1]](f"injected {ans[1]} at op {op.i}")
             self.injected.append((op.i, ans[1]))
+            if ans[1] in ("WriteError", "ReadError") and op.tr is not None:
+                # a hard I/O error means the connection is gone: nothing further arrives from the peer
+                op.tr.peer_eof = True
             return ("raise", exc)
         return ans
